@@ -8,6 +8,7 @@ import build, orch
 
 def main():
     files = sys.argv[1:] or sorted(glob.glob(os.path.join(build.VERIF, "findings", "*.replay")))
+    files = [f for f in files if "-" in (orch.plan_program(open(f).read()) or "")]   # simrun replays only (C12/C19 replays go through their own checks)
     wdir = os.path.join("/tmp", "vf-%d" % os.getpid())
     os.makedirs(wdir)
     try:
